@@ -8,6 +8,7 @@ scratch tree (VERIF_REPO=<worktree>, evidence redirected to a temp dir), undo th
 import json, os, shutil, subprocess, sys, tempfile, time
 
 HERE = os.path.dirname(os.path.abspath(__file__))
+sys.path.insert(0, HERE)
 
 
 def sh(cmd, cwd=None, env=None, timeout=3600):
@@ -37,14 +38,21 @@ def main():
         if rc != 0:
             res.append({'k': k, 'error': 'patch does not apply: ' + o[-300:]})
             continue
-        touches_c = 'mydpss.c' in open(patch).read()
+        ptxt = open(patch).read()
+        touches_c = 'mydpss.c' in ptxt
+        extra = list(others)
+        if os.environ.get('SEED_AUTO_EXTRAS'):
+            # also run the quick tier of every check that reaches the touched files (the mapping of tools_equiv.py)
+            from tools_equiv import FILE_CHECKS
+            touched = sorted({l.split('/')[-1].strip() for l in ptxt.splitlines() if l.startswith('+++ ')})
+            extra += [c for c in sorted({c for f in touched for c in FILE_CHECKS.get(f, '').split()}) if c != pid and c not in extra]
         if touches_c:
             sh('gcc -O2 -shared -fPIC -o src/spectrum/mydpss.cpython-312-x86_64-linux-gnu.so src/cpp/mydpss.c -lm', cwd=wt)
         rct, ot = sh('/venv/bin/python -m pytest -q -p no:cacheprovider 2>&1 | tail -3', cwd=wt, env=env)
         tests_ok = '165 passed' in ot and 'failed' not in ot
         rc1, o1 = sh('/venv/bin/python %s' % demo, cwd=out, env=env)
         checks = {}
-        for cid in [pid] + others:
+        for cid in [pid] + extra:
             t0 = time.time()
             rcq, oq = sh('./check %s --tier quick' % cid, cwd=HERE, env=cenv)
             checks[cid + ':quick'] = {'exit': rcq, 'violations': oq.count('VIOLATION property='), 'wall_s': round(time.time() - t0, 1),
